@@ -27,7 +27,7 @@ ASSUMPTIONS = [
     "homogeneous families only: NodeMixin-based and LightNodeMixin-based universes are never mixed (cross-family attaches raise AttributeError; the statement quantifies over each family)",
     "non-node arguments are generated for NodeMixin-based classes only (the statement prescribes TreeError only there)",
 ]
-CLASS_SPECS = ["HNM", "HLM", "Node", "AnyNode", "SymlinkNode", "PlainNM", "SlotLM", "DictLM", ["Node", "AnyNode", "SymlinkNode", "PlainNM"], ["SlotLM", "DictLM"], ["Node", "SymlinkNodeU"], ["AnyNode", "SymlinkNodeU", "SymlinkNodeU"], "HEqNM", "HEqLM"]
+CLASS_SPECS = ["HNM", "HLM", "Node", "AnyNode", "SymlinkNode", "PlainNM", "SlotLM", "DictLM", ["Node", "AnyNode", "SymlinkNode", "PlainNM"], ["SlotLM", "DictLM"], ["Node", "SymlinkNodeU"], ["AnyNode", "SymlinkNodeU", "SymlinkNodeU"], "HEqNM", "HEqLM", "HSlotStoreNM", "HSideNM"]
 CTORS = {"Node": lambda **kw: Node("new", **kw), "AnyNode": lambda **kw: AnyNode(name="new", **kw), "SymlinkNode": lambda **kw: SymlinkNode(Node("t"), **kw), "LateSuperNM": lambda **kw: nodes.LateSuperNM("new", **kw)}
 
 
@@ -319,8 +319,16 @@ def check_construct(case, acc):
         seq = [mut.resolve(universe, c) for c in children]
         kwargs["children"] = {"list": seq, "tuple": tuple(seq), "gen": (x for x in seq)}[case.get("form", "list")]
     # expected: bare node, then parent assignment, then (if children is truthy) children assignment
-    state = mut.copy_state(pre) + [[None, []]]
-    verdict1, after_parent = mut.spec(state, ["parent", n, case.get("parent")], family)
+    reinit = case.get("reinit")
+    if reinit is None:
+        state = mut.copy_state(pre) + [[None, []]]
+        who = n
+    else:
+        # the constructor runs (again) on a node that is already part of the forest - explicit re-initialisation, a class
+        # whose __new__ recycles objects: parent=/children= still behave like the assignments, parent=None detaches
+        state = mut.copy_state(pre)
+        who = reinit
+    verdict1, after_parent = mut.spec(state, ["parent", who, case.get("parent", None)], family)
     expect_exc = None
     expected = None
     if verdict1 == "raise":
@@ -329,13 +337,20 @@ def check_construct(case, acc):
         expected = after_parent
         truthy = bool(children) if case.get("form") != "gen" else children is not None  # a generator object is always truthy
         if children is not None and truthy:
-            verdict2, after_children = mut.spec(after_parent, ["children", n, list(children)], family)
+            verdict2, after_children = mut.spec(after_parent, ["children", who, list(children)], family)
             if verdict2 == "raise":
                 expect_exc = after_children
             else:
                 expected = after_children
     try:
-        new = CTORS[cls](**kwargs)
+        if reinit is None:
+            new = CTORS[cls](**kwargs)
+        else:
+            new = universe[reinit]
+            if cls == "AnyNode":
+                AnyNode.__init__(new, name="again", **kwargs)
+            else:
+                type(new).__init__(new, "again", **kwargs)
         exc = None
     except Exception as e:  # noqa: BLE001
         new, exc = None, e
@@ -343,8 +358,9 @@ def check_construct(case, acc):
     if expect_exc is None:
         if exc is not None:
             raise Violation("ctor-spurious-refusal", "%s raised %s: %s" % (ctx, type(exc).__name__, exc))
-        rec.labels.add(new, n)
-        post = mut.snapshot(universe + [new], rec.labels)
+        if reinit is None:
+            rec.labels.add(new, n)
+        post = mut.snapshot(universe + ([new] if reinit is None else []), rec.labels)
         if post != expected:
             raise Violation("ctor-effect", "%s expected %s got %s" % (ctx, expected, post))
     else:
@@ -352,7 +368,7 @@ def check_construct(case, acc):
             raise Violation("ctor-missing-refusal", "%s must raise %s" % (ctx, expect_exc))
         if type(exc).__name__ != expect_exc:
             raise Violation("ctor-refusal-class", "%s must raise %s, raised %s: %s" % (ctx, expect_exc, type(exc).__name__, exc))
-        if verdict1 == "ok" and case.get("parent") is not None:
+        if verdict1 == "ok" and case.get("parent") is not None and reinit is None:
             # the parent assignment preceded the refused children assignment and stays done
             holder = universe[case["parent"]]
             extra = [c for c in holder.children if not rec.labels.known(c)]
@@ -363,6 +379,7 @@ def check_construct(case, acc):
         raise Violation("ctor-consistency", "%s: %s" % (ctx, problem))
     acc.nontrivial(case.get("parent") is not None or bool(children))
     acc.tag("constructor_cases")
+    acc.tag("constructor_run_again_on_an_attached_node", reinit is not None)
     acc.tag("constructor_refusals", expect_exc is not None)
 
 
@@ -382,6 +399,9 @@ def _ctor_cases(n, index, count):
                     if parent != "<absent>":
                         case["parent"] = parent
                     yield case
+                    if cls in ("Node", "AnyNode", "LateSuperNM") and not isinstance(parent, dict) and not any(isinstance(c, dict) for c in children or []):
+                        for again in labels:
+                            yield dict(case, reinit=again)
 
 
 def plan(tier, seed):
